@@ -933,3 +933,37 @@ package scipipe
 //@   ensures removed: !(rptName in pt.RemotePorts)
 //@   ensures others: forall k string :: k != rptName ==> ((k in pt.RemotePorts) <==> old(k in pt.RemotePorts)) && pt.RemotePorts[k] == old(pt.RemotePorts[k])
 //@   ensures ready-iff-connected: old(pt.ready <==> len(pt.RemotePorts) > 0) ==> (pt.ready <==> len(pt.RemotePorts) > 0)
+
+//@ func (*BaseProcess).InPort(p, portName) (res)
+//@   props C16
+//@   ensures returns-only-if-present: portName in p.inPorts && res == p.inPorts[portName]
+//@ func (*BaseProcess).InParamPort(p, portName) (res)
+//@   props C16
+//@   ensures returns-only-if-present: portName in p.inParamPorts && res == p.inParamPorts[portName]
+//@ func (*BaseProcess).OutPort(p, portName) (res)
+//@   props C16
+//@   ensures returns-only-if-present: portName in p.outPorts && res == p.outPorts[portName]
+//@ func (*BaseProcess).OutPorts(p) (res)
+//@   props C16
+//@   ensures def: res == p.outPorts
+//@ func (*BaseProcess).InPorts(p) (res)
+//@   props C16
+//@   ensures def: res == p.inPorts
+//@ func (*BaseProcess).InParamPorts(p) (res)
+//@   props C16
+//@   ensures def: res == p.inParamPorts
+//@ func (*BaseProcess).OutParamPorts(p) (res)
+//@   props C16
+//@   ensures def: res == p.outParamPorts
+//@ func (*Sink).in(p) (res)
+//@   props C16
+//@   ensures def: "sink_in" in p.inPorts && res == p.inPorts["sink_in"]
+//@ func (*Sink).paramIn(p) (res)
+//@   props C16
+//@   ensures def: "param_sink_in" in p.inParamPorts && res == p.inParamPorts["param_sink_in"]
+//@ func (*Sink).From(p, outPort)
+//@   props C16
+//@   requires maps: p.inPorts["sink_in"].RemotePorts != nil && outPort.RemotePorts != nil
+//@   modifies map[string]*OutPort, outPort.RemotePorts[*], InPort.ready, outPort.ready
+//@   ensures connected: outPort.ready && len(outPort.RemotePorts) > 0
+//@   ensures to-sink: outPort.RemotePorts[procName(p.inPorts["sink_in"].process) + ".sink_in"] == p.inPorts["sink_in"]
